@@ -207,7 +207,7 @@ func genRecv(r *hv.Rand) {
 		rec(nil)
 	}
 	exh("recv-exhaustive-2+fin+ack", 2, []int64{1, 2, 3, 0}, hv.Scale(4, 6))
-	exh("recv-exhaustive-3+fin", 3, []int64{1, 2, 3, 4}, hv.Scale(5, 6))
+	exh("recv-exhaustive-3+fin", 3, []int64{1, 2, 3, 4}, hv.Scale(4, 6))
 	exh("recv-exhaustive-2+fin+read", 2, []int64{1, 2, 3, -1}, hv.Scale(4, 6))
 
 	// (2) random arrival orders: reorder, duplicate, omit, stale, interleaved reads
